@@ -20,7 +20,7 @@ ASSUMPTIONS = ['an exception raised from the line tracer at line L is equivalent
                'for BaseException endings of process/remote kinds both the exception and None are accepted as error']
 SHRINK = 'none'
 TIME_BUDGET = {'quick': 170, 'thorough': 1700}
-REQUIRED = {'quick': {'landed': 150, 'land:except_handler': 3, 'land:finally': 5, 'land:result_send': 5, 'mode:kill': 30, 'mode:terminate': 100},
+REQUIRED = {'quick': {'landed': 150, 'land:except_handler': 3, 'land:finally': 5, 'land:result_send': 5, 'mode:kill': 30, 'mode:terminate': 100, 'remote_big_result_polled': 10},
             'thorough': {'landed': 1500, 'land:except_handler': 30, 'land:finally': 50, 'land:result_send': 50}}
 
 _ACC = ['is_alive', 'has_error', 'result', 'error', 'wait0', 'terminate0']
@@ -61,7 +61,11 @@ def strategy(tier):
     big = st.fixed_dictionaries({
         'kind': st.just('process'), 'scenario': st.sampled_from(['big:300000', 'big:1000000', 'big:4000000']),
         'inject': st.just({'mode': 'kill_external', 'sig': 'SIGKILL'}), 'observe': _observe})
-    return st.one_of(one, one, one, pers, pers, own, big)
+    bigpoll = st.fixed_dictionaries({
+        'kind': st.sampled_from(['remote', 'remote', 'process', 'thread']), 'scenario': st.sampled_from(['big:4000000', 'slowload:300', 'slowload:300', 'slowload:100', 'quick_return']),
+        'inject': st.just({'mode': 'none'}), 'poll': st.sampled_from([0, 0.001, 0.01]),
+        'observe': st.lists(st.sampled_from(['has_error', 'result', 'error', 'has_error', 'is_alive', 'wait0']), min_size=4, max_size=8)})
+    return st.one_of(one, one, one, pers, pers, own, big, bigpoll)
 
 
 def exhaustive(tier, shard, nshards):
@@ -102,6 +106,8 @@ def expected(case):
         errs.append({'exc': 'ValueError', 'args': repr(('own', 'x', 2))})
     elif sc.startswith('big:'):
         a_results = ['BIG']
+    elif sc.startswith('slowload:'):
+        a_results = [{'repr': 'SlowLoad(%s)' % (int(sc.split(':')[1]) / 1000.0)}]
     elif sc.startswith('raise:'):
         k = sc.split(':')[1]
         if k in ('ValueError', 'KeyError', 'Custom'):
@@ -189,6 +195,10 @@ def run_case(case, ctx):
             out.label('land:in_target')
         if obs.get('delivered'):
             out.label('delivered')
+    if case.get('poll') is not None:
+        out.label('polled_wait')
+        if case['scenario'].startswith(('big:', 'slowload:')) and kind == 'remote':
+            out.label('landed', 'remote_big_result_polled')
     if mode == 'kill_external' and obs.get('was_alive_at_kill'):
         out.label('landed', 'killed_while_sending_big_result')
     out.nontrivial = 'landed' in out.labels
